@@ -122,9 +122,18 @@ def run(tier):
         if ed:
             b.ctors["ExponentDerivative"] = ed[0]
         try:
-            return b.run(f, env, {}, this)
+            res = b.run(f, env, {}, this)
         except B.Unsupported as e:
             raise AnalysisBroken("%s (%s): outside the builder idiom: %s" % (f.display, rel(f.loc), e))
+        if not f.qname.endswith("applyChainRule"):
+            for g, site, nm, cls in b.raw_uses:
+                if g is not f:
+                    continue        # inside an inlined constructor the parameters are already clones
+                rep.fail("UNCLONED-SUBEXPRESSION@%s#%s" % (f.display.replace(NS, ""), nm),
+                         "%s: %s embeds the sub-expression '%s' of the differentiated node in the new %s without clone(v): the "
+                         "derivative keeps reading the variables of the original evaluator instead of its own"
+                         % (rel(g.short_loc(site)), f.display.replace(NS, ""), nm, cls))
+        return res
 
     def report(f, key, facts, got, want, what):
         fx = {k: v for k, v in facts.items() if v is not None}
